@@ -19,5 +19,7 @@ if ! cmp -s _CoqProject.new _CoqProject 2>/dev/null || [ ! -f Makefile.coq ]; th
 else
   rm -f _CoqProject.new
 fi
-timeout 3000 make -f Makefile.coq -j"${VERIF_JOBS:-16}" $KEEP "$@" 2>&1
+# per-file caps: a diverging proof script must fail (and be reported as a broken proof), not hold the build lock for an hour
+ulimit -v 20000000 2>/dev/null
+timeout 3000 make -f Makefile.coq COQC="timeout 900 coqc" -j"${VERIF_JOBS:-16}" $KEEP "$@" 2>&1
 exit ${PIPESTATUS[0]}
